@@ -1148,7 +1148,11 @@ func (r *raft) Step(m *pb.Message) error {
 		}
 
 	case m.GetTerm() < r.Term:
-		if (r.checkQuorum || r.preVote || r.isLearner) && (m.GetType() == pb.MsgHeartbeat || m.GetType() == pb.MsgApp) {
+		// A node that is not a member of its own configuration yet (one that was
+		// just added and has not received the log that says so) cannot campaign
+		// either, see below.
+		_, member := r.trk.Progress[r.id]
+		if (r.checkQuorum || r.preVote || r.isLearner || !member) && (m.GetType() == pb.MsgHeartbeat || m.GetType() == pb.MsgApp) {
 			// We have received messages from a leader at a lower term. It is possible
 			// that these messages were simply delayed in the network, but this could
 			// also mean that this node has advanced its term number during a network
@@ -1175,7 +1179,11 @@ func (r *raft) Step(m *pb.Message) error {
 			// campaigns, so it has no MsgVote with which to advance the term of
 			// the others, and a learner whose term ran ahead (it voted or
 			// campaigned before it was demoted, or heard a candidate that has
-			// since left) would otherwise ignore its leader for ever.
+			// since left) would otherwise ignore its leader for ever. The same goes
+			// for a node that does not know yet that it is a member: a freshly
+			// added node with an empty log that granted its vote to a candidate of
+			// a higher term which then lost would otherwise never accept the log
+			// that tells it about its membership.
 			r.send(&pb.Message{To: m.From, Type: pb.MsgAppResp.Enum()})
 		} else if m.GetType() == pb.MsgPreVote {
 			// Before Pre-Vote enable, there may have candidate with higher term,
